@@ -190,7 +190,11 @@ def gen_iscsi_name(rng, n=None):
         # iSCSI names are UTF-8 (RFC 3722): a few characters outside ASCII, the length in characters unchanged
         chars = list(name)
         for _ in range(rng.randint(1, 3)):
-            chars[rng.randrange(len(base), len(chars))] = rng.choice("\u00e9\u00fc\u00f8\u0142\u65e5\u672c\u03b1")
+            # precomposed letters, CJK, Greek -- and characters a Unicode normalisation would replace (a combining mark after its
+            # base letter, OHM / KELVIN / ANGSTROM signs, a compatibility ideograph, the micro sign, a ligature): the name is sent
+            # and reported as the caller gave it
+            chars[rng.randrange(len(base), len(chars))] = rng.choice(["\u00e9", "\u00fc", "\u00f8", "\u0142", "\u65e5", "\u672c", "\u03b1", "e\u0301", "u\u0308", "\u2126", "\u212a", "\u212b",
+                                                                      "\uf900", "\u00b5", "\ufb01", "\u1100\u1161", "\u00df", "\u0130"])
         name = "".join(chars)
     return name
 
@@ -578,10 +582,19 @@ class VpdStruct(VpdBase):
     size = 0
     builder = False
 
+    # page lengths of earlier revisions of the standards (the page ends there: later fields are not sent, not zero-filled)
+    SHORT_REVISIONS = {0xB0: (0x0C, 0x10, 0x20), 0x86: (0x08, 0x0C, 0x20), 0xB1: (0x04, 0x08, 0x20), 0xB3: (0x08,)}
+
     def gen(self, rng, mode="rand"):
         v = self.gen_hdr(rng)
         if not (isinstance(mode, tuple) and mode[0] == "walk"):
             v.update(gen_struct(self.body, rng))
+            if self.page in self.SHORT_REVISIONS and rng.random() < 0.2:
+                n = rng.choice(self.SHORT_REVISIONS[self.page])
+                v["_total"] = 4 + n
+                for name, byte, a, w in self.body.fields:
+                    if byte >= 4 + n:
+                        v[name] = 0  # not sent: reported as zero
         else:
             _m, field, value, fill = mode
             for name, byte, a, w in self.body.fields:
@@ -590,11 +603,12 @@ class VpdStruct(VpdBase):
         return v
 
     def encode(self, v):
+        size = v.get("_total", self.size)
         b = bytearray(self.size)
         self.body.encode(v, b)
-        h = self.hdr(v, bytes(self.size - 4))
+        h = self.hdr(v, bytes(size - 4))
         b[0:4] = h[0:4]
-        return bytes(b)
+        return bytes(b[:size])
 
     def walk_modes(self, small=False):
         for name, byte, a, w in self.body.fields:
